@@ -475,6 +475,147 @@ func marshalIntoSource(sec string, emit func(rendering)) {
 	}
 }
 
+// The shapes configuration structs of real components have: shared sub-structs embedded with `squash` (plain, or
+// implementing confmap.Unmarshaler — alone under an outer Unmarshal method, or two of them side by side), sub-structs
+// behind pointers, nested Unmarshalers, lists and maps of sub-structs, and the non-nil component.Config interface the
+// collector decodes every section into. Unmarshalling must store the secret unchanged in every one of them.
+type shapeLeaf struct {
+	Tok configopaque.String            `mapstructure:"tok"`
+	Hdr map[string]configopaque.String `mapstructure:"hdr"`
+	N   int                            `mapstructure:"n"`
+}
+
+type ShapeEmbPlain struct {
+	Tok configopaque.String `mapstructure:"tok"`
+}
+
+type ShapeEmbA struct {
+	TokA configopaque.String            `mapstructure:"tok_a"`
+	HdrA map[string]configopaque.String `mapstructure:"hdr_a"`
+}
+
+func (e *ShapeEmbA) Unmarshal(cm *confmap.Conf) error {
+	return cm.Unmarshal(e, confmap.WithIgnoreUnused())
+}
+
+type ShapeEmbB struct {
+	TokB configopaque.String `mapstructure:"tok_b"`
+}
+
+func (e *ShapeEmbB) Unmarshal(cm *confmap.Conf) error {
+	return cm.Unmarshal(e, confmap.WithIgnoreUnused())
+}
+
+type shapeNestedU struct {
+	Tok configopaque.String `mapstructure:"tok"`
+}
+
+func (e *shapeNestedU) Unmarshal(cm *confmap.Conf) error { return cm.Unmarshal(e) }
+
+type shapeSquashPlain struct {
+	ShapeEmbPlain `mapstructure:",squash"`
+	Other         string `mapstructure:"other"`
+}
+
+type shapeSquashTwoU struct {
+	ShapeEmbA `mapstructure:",squash"`
+	ShapeEmbB `mapstructure:",squash"`
+	Other     string `mapstructure:"other"`
+}
+
+type shapeSquashOneU struct {
+	ShapeEmbA `mapstructure:",squash"`
+	Other     string `mapstructure:"other"`
+}
+
+func (o *shapeSquashOneU) Unmarshal(cm *confmap.Conf) error { return cm.Unmarshal(o) }
+
+type shapeAll struct {
+	Ptr    *shapeLeaf           `mapstructure:"ptr"`
+	Nested shapeNestedU         `mapstructure:"nested"`
+	List   []shapeLeaf          `mapstructure:"list"`
+	Map    map[string]shapeLeaf `mapstructure:"map"`
+	SqP    shapeSquashPlain     `mapstructure:"sq_plain"`
+	Sq2    shapeSquashTwoU      `mapstructure:"sq_two"`
+	Sq1    shapeSquashOneU      `mapstructure:"sq_one"`
+}
+
+func shapePositives(c *driver.Ctx, sec string) {
+	leaf := func() map[string]any { return map[string]any{"tok": sec, "hdr": map[string]any{"h": sec}, "n": 7} }
+	in := map[string]any{
+		"ptr": leaf(), "nested": map[string]any{"tok": sec}, "list": []any{leaf(), leaf()}, "map": map[string]any{"a": leaf()},
+		"sq_plain": map[string]any{"tok": sec, "other": "o"},
+		"sq_two":   map[string]any{"tok_a": sec, "hdr_a": map[string]any{"h": sec}, "tok_b": sec, "other": "o"},
+		"sq_one":   map[string]any{"tok_a": sec, "hdr_a": map[string]any{"h": sec}, "other": "o"},
+	}
+	check := func(target string, got *shapeAll, err error) {
+		if err != nil {
+			c.Violation("unmarshal", "confmap.Unmarshal of a configuration struct holding secrets failed ("+target+"): "+err.Error(), map[string]string{"secret": sec}, "path", "confmap.Unmarshal", "shape", "error")
+			return
+		}
+		c.Observe("unmarshal_shape_checks", 1)
+		type probe struct {
+			shape string
+			got   configopaque.String
+			ok    bool
+		}
+		var ps []probe
+		add := func(shape string, v configopaque.String) { ps = append(ps, probe{shape, v, true}) }
+		if got.Ptr != nil {
+			add("pointer-sub-struct", got.Ptr.Tok)
+			add("pointer-sub-struct/headers", got.Ptr.Hdr["h"])
+		} else {
+			ps = append(ps, probe{"pointer-sub-struct", "", false})
+		}
+		add("nested-unmarshaler", got.Nested.Tok)
+		for _, l := range got.List {
+			add("list-of-structs", l.Tok)
+			add("list-of-structs/headers", l.Hdr["h"])
+		}
+		if len(got.List) != 2 {
+			ps = append(ps, probe{"list-of-structs", "", false})
+		}
+		add("map-of-structs", got.Map["a"].Tok)
+		add("map-of-structs/headers", got.Map["a"].Hdr["h"])
+		add("squash-plain", got.SqP.Tok)
+		add("squash-two-unmarshalers", got.Sq2.TokA)
+		add("squash-two-unmarshalers/headers", got.Sq2.HdrA["h"])
+		add("squash-two-unmarshalers/second", got.Sq2.TokB)
+		add("squash-unmarshaler-under-outer-unmarshal", got.Sq1.TokA)
+		add("squash-unmarshaler-under-outer-unmarshal/headers", got.Sq1.HdrA["h"])
+		for _, p := range ps {
+			if !p.ok || string(p.got) != sec {
+				c.Violation("unmarshal", fmt.Sprintf("confmap.Unmarshal (%s) did not store the secret unchanged in the %s shape: got %q", target, p.shape, string(p.got)),
+					map[string]any{"secret": sec, "got": string(p.got), "shape": p.shape, "target": target}, "path", "confmap.Unmarshal", "shape", strings.SplitN(p.shape, "/", 2)[0])
+			}
+		}
+		if got.SqP.Other != "o" || got.Sq2.Other != "o" || got.Sq1.Other != "o" || (got.Ptr != nil && got.Ptr.N != 7) {
+			c.Observe("unmarshal_shape_sibling_fields_differ", 1) // not C14's concern; C13 judges siblings
+		}
+	}
+	{
+		var got shapeAll
+		err := confmap.NewFromStringMap(in).Unmarshal(&got)
+		check("struct pointer", &got, err)
+	}
+	{
+		got := &shapeAll{}
+		var held any = got // the collector unmarshals into a non-nil component.Config
+		err := confmap.NewFromStringMap(in).Unmarshal(&held)
+		check("held interface", got, err)
+	}
+	{
+		// through a sub-section, as a component's own Unmarshal does
+		cm := confmap.NewFromStringMap(map[string]any{"component": in})
+		sub, err := cm.Sub("component")
+		var got shapeAll
+		if err == nil {
+			err = sub.Unmarshal(&got)
+		}
+		check("sub-section", &got, err)
+	}
+}
+
 // positives: the explicit conversion returns the secret; unmarshalling stores it unchanged.
 func positives(c *driver.Ctx, sec string) {
 	s := configopaque.String(sec)
@@ -496,6 +637,7 @@ func positives(c *driver.Ctx, sec string) {
 	if string(got.S) != sec || string(got.M["k"]) != sec || len(got.L) != 1 || string(got.L[0]) != sec || got.P == nil || string(*got.P) != sec {
 		c.Violation("unmarshal", "confmap.Unmarshal did not store the secret unchanged", map[string]any{"secret": sec, "got": fmt.Sprintf("%q %q", string(got.S), string(got.M["k"]))}, "path", "confmap.Unmarshal")
 	}
+	shapePositives(c, sec)
 	// other decoders that honour encoding.TextUnmarshaler must store the secret unchanged as well
 	var viaJSON struct {
 		S configopaque.String            `json:"s"`
@@ -644,11 +786,11 @@ func main() {
 			"containers are the positions a configuration can have: exported struct fields, pointers, slices, arrays, map values, map keys, interfaces; unexported fields are excluded (fmt cannot call methods on them and mapstructure cannot populate them)",
 			"a leak is the secret, or a standard transform of it (quoted, JSON-escaped, hex, base64, byte/rune lists, 10-byte prefix/suffix of long secrets), occurring in the output",
 		},
-		TrustedBase: []string{"Go fmt/encoding packages, zap, yaml.v2/v3 as vendored in the module cache"},
-		Shards:      func(tier string) int { return 16 },
+		TrustedBase:   []string{"Go fmt/encoding packages, zap, yaml.v2/v3 as vendored in the module cache"},
+		Shards:        func(tier string) int { return 16 },
 		MinNontrivial: func(string) int { return 1000 },
-		ShardTimeout: func(string) time.Duration { return 15 * time.Minute },
-		Run:          run,
-		MaxSamples:   1,
+		ShardTimeout:  func(string) time.Duration { return 15 * time.Minute },
+		Run:           run,
+		MaxSamples:    1,
 	})
 }
